@@ -172,10 +172,10 @@ SPECS = {
                 'quick': {'runs': 260, 'budget_s': 110, 'run_timeout_s': 120, 'shrink_budget_s': 80,
                           'params': {'focus': 'C10', 'max_n': 4}},
                 'thorough': {'runs': 6000, 'budget_s': 1500, 'run_timeout_s': 240, 'shrink_budget_s': 240,
-                             'params': {'focus': 'C10', 'max_n': 7}},
+                             'params': {'focus': 'C10', 'max_n': 15}},
             },
         }],
-        'rule': ('one run = one ceremony: m-of-n (n<=4 quick, <=7 thorough) cosigners, 2-3 of them real wallets in separate '
+        'rule': ('one run = one ceremony: m-of-n (n<=4 quick, <=15 thorough) cosigners, 2-3 of them real wallets in separate '
                  'databases created from independently permuted key lists, the rest external signers; then 8-24 events: ask parties for the key at an explicit path or for the next key of an explicit cosigner branch, fund, create a spend, sign (holder / external cosigner / foreign key), '
                  'hand a copy over as object / dict / raw hex through a channel that drops, duplicates and reorders, import, '
                  'send, tamper. After every event every touched copy is judged by the library (verify / verified / pushed) and '
